@@ -1,4 +1,7 @@
 import PsiProofs.Helper.C12Ext2_Capture
+import PsiProofs.Helper.C12Ext2_Band
+import PsiProofs.Helper.C12Ext_Acc
+import PsiProofs.C12
 /-!
 # EXT12 (continued) — `rms_band`, `capture`, `events_to_info` of psiaudio/pipeline.py
 
@@ -12,6 +15,80 @@ right after them.
 namespace Psi.StagesExt2
 open Psi.Stages Psi.StagesExt
 variable {α β ρ χ μ τ κ ι : Type}
+
+/-! ## rms_band
+
+`rms_band` is the block loop of `rms` with another block function and another annotation of the result — **not** a
+composition of `iirfilter` and `rms` (notes/EXT12.md §9).  The composition theorem is therefore stated against the
+`rms` model of C12: `rms_band = renumber ∘ rms[block function := band]`; chunk invariance follows from
+`Psi.Stages.rms_chunk_invariant`. -/
+
+/-- **composition**: on any sequence of annotated chunks with the rate `f` (aligned or not), `rms_band` with block
+length `n ≥ 1` raises `ValueError` exactly when `rms` does (a chunk that does not start where the previous one ended),
+and otherwise emits the blocks that `rms` with the block function `band` emits, renumbered from output sample 0 and
+annotated `fs = f / n`, default channel, empty metadata. -/
+theorem rms_band_simulates_rms (band : List α → β) (divFs : ρ → Nat → ρ) (chDef : χ) (mdEmpty : μ) (n : Nat)
+    (hn : 0 < n) (f : ρ) (ys : List (PD α ρ χ μ)) (hf : ∀ y ∈ ys, y.ann.fs = f) :
+    (∀ e, outputs (runStage (rmsStep band divFs n) {} ys) = .error e →
+        outs (run (rmsBandStep band divFs chDef mdEmpty n) {} (ys.map Arr.pd)) = .error .valueError)
+    ∧ (∀ bs, outputs (runStage (rmsStep band divFs n) {} ys) = .ok bs →
+        outs (run (rmsBandStep band divFs chDef mdEmpty n) {} (ys.map Arr.pd))
+          = .ok (renumber ⟨divFs f n, chDef, mdEmpty⟩ 0 bs)) := by
+  have h := band_sim band divFs chDef mdEmpty n hn f ys {} {} rfl rfl (Or.inr rfl) hf
+  cases hr : runStage (rmsStep band divFs n) {} ys with
+  | error e =>
+    rw [hr] at h; simp only at h
+    exact ⟨fun _ _ => by rw [h]; rfl, fun bs hb => by simp [outputs] at hb⟩
+  | ok p =>
+    obtain ⟨bs, st⟩ := p
+    rw [hr] at h
+    obtain ⟨bst', hb⟩ := h
+    refine ⟨fun e he => by simp [outputs] at he, fun bs' hb' => ?_⟩
+    simp only [outputs, Except.ok.injEq] at hb'
+    subst hb'
+    rw [hb]; rfl
+
+example : outs (run (rmsBandStep (α := Nat) (χ := Unit) (μ := Unit) List.sum (fun (fs : Nat) n => fs / n) () () 2) {}
+      ([⟨[1, 2, 3], 7, ⟨100, (), ()⟩⟩, ⟨[4, 5], 10, ⟨100, (), ()⟩⟩].map Arr.pd))
+    = .ok (renumber ⟨50, (), ()⟩ 0 [⟨[3], 7, ⟨50, (), ()⟩⟩, ⟨[7], 9, ⟨50, (), ()⟩⟩]) :=
+  (rms_band_simulates_rms List.sum (fun (fs : Nat) n => fs / n) () () 2 (by decide) 100
+    [⟨[1, 2, 3], 7, ⟨100, (), ()⟩⟩, ⟨[4, 5], 10, ⟨100, (), ()⟩⟩] (by simp)).2 _ rfl
+
+/-- **`rms_band(n)` is chunk-invariant**: for every chunking of an annotated stream (any start sample `s`, any channel
+labels and metadata) the stage never raises and the concatenation of everything emitted is the band value of the
+consecutive complete `n`-blocks of the whole signal; the emitted blocks are contiguous **from output sample 0**
+(recorded behaviour: the input's `s0` is not carried over), with rate `fs / n`, the default channel and empty
+metadata (the input's labels and metadata are dropped). -/
+theorem rms_band_chunk_invariant (band : List α → β) (divFs : ρ → Nat → ρ) (chDef : χ) (mdEmpty : μ) (n : Nat)
+    (hn : 0 < n) (ann : Ann ρ χ μ) (s : Int) (cs : List (List α)) :
+    ∃ bs, outs (run (rmsBandStep band divFs chDef mdEmpty n) {} ((stream ann s cs).map Arr.pd)) = .ok bs
+      ∧ Emits bs ((blocksOf n cs.flatten).map band) 1 0 ⟨divFs ann.fs n, chDef, mdEmpty⟩ := by
+  obtain ⟨bs, h1, h2⟩ := rms_chunk_invariant band divFs n hn ann s cs
+  have hf : ∀ y ∈ stream ann s cs, y.ann.fs = ann.fs := by
+    intro y hy; rw [(stream_emits ann cs s).ann y hy]
+  refine ⟨_, (rms_band_simulates_rms band divFs chDef mdEmpty n hn ann.fs _ hf).2 bs h1, ?_⟩
+  exact emits_renumber h2 _ 0
+
+example : ∃ bs, outs (run (rmsBandStep (α := Nat) (χ := String) (μ := String) List.sum (fun (fs : Nat) n => fs / n) "None" "{}" 2) {}
+      ((stream ⟨100, "c", "md"⟩ 7 [[1, 2, 3], [], [4, 5]]).map Arr.pd)) = .ok bs
+    ∧ Emits bs ((blocksOf 2 [[1, 2, 3], [], [4, 5]].flatten).map List.sum) 1 0 ⟨100 / 2, "None", "{}"⟩ :=
+  rms_band_chunk_invariant _ _ _ _ 2 (by decide) _ 7 _
+
+/-- a plain `ndarray` as first chunk: `data[0].fs` raises `AttributeError` (recorded behaviour; `rms` accepts it) -/
+theorem rms_band_plain_first_chunk_raises (band : List α → β) (divFs : ρ → Nat → ρ) (chDef : χ) (mdEmpty : μ) (n : Nat)
+    (d : List α) (rest : List (Arr α ρ χ μ)) :
+    run (rmsBandStep band divFs chDef mdEmpty n) {} (.plain d :: rest) = .error .attributeError := rfl
+
+example : run (rmsBandStep (α := Nat) (ρ := Nat) (χ := Unit) (μ := Unit) List.sum (fun fs n => fs / n) () () 2) {}
+    [.plain [1, 2, 3]] = .error .attributeError := rms_band_plain_first_chunk_raises _ _ _ _ _ _ _
+
+/-- block length 0 (`round(fs * duration) = 0`): `fs / n` raises `ZeroDivisionError` at the first chunk -/
+theorem rms_band_zero_block_raises (band : List α → β) (divFs : ρ → Nat → ρ) (chDef : χ) (mdEmpty : μ)
+    (y : PD α ρ χ μ) (rest : List (Arr α ρ χ μ)) :
+    run (rmsBandStep band divFs chDef mdEmpty 0) {} (.pd y :: rest) = .error .zeroDivision := rfl
+
+example : run (rmsBandStep (α := Nat) (χ := Unit) (μ := Unit) List.sum (fun (fs : Nat) n => fs / n) () () 0) {}
+    [.pd ⟨[1, 2, 3], 0, ⟨100, (), ()⟩⟩] = .error .zeroDivision := rms_band_zero_block_raises _ _ _ _ _ _
 
 /-! ## capture -/
 
